@@ -43,6 +43,7 @@ type Scenario struct {
 	ReleaseOK bool   `json:"release_ok"`
 	ReleaseMs int    `json:"release_ms"` // stop-init: the held handshake is released this long after Stop was called (negative: before)
 	PayLen    int    `json:"pay_len"`
+	Procs     int    `json:"procs,omitempty"` // GOMAXPROCS of the child (default 4); 1 makes "a goroutine was spawned but has not run yet" windows wide
 	Seed      uint64 `json:"seed"`
 }
 
@@ -54,6 +55,10 @@ type Result struct {
 	Quiescent     bool     `json:"quiescent"`
 	TimerWait     bool     `json:"timer_wait"` // Stop not returned, relay quiescent: only the NAT timer can end the wait
 	BusyPolls     int      `json:"busy_polls"`
+	CtrlEstablished         int    `json:"ctrl_established"`          // SOCKS5 associations the harness server completed
+	CtrlOpen                int    `json:"ctrl_open"`                 // of those: control connections the client has not closed 5 s (effective) after Stop
+	ClientSessionGoroutines int    `json:"client_session_goroutines"` // keep-alive goroutines of client sessions still alive then
+	ClientSessionDump       string `json:"client_session_dump,omitempty"`
 	StallMs       int64    `json:"stall_ms"` // scheduling stall of this process during the Stop measurement (heartbeat, x4), subtracted from stop_ms // inspections past the limit that found runnable (starved) relay goroutines
 	WaitDump      string   `json:"wait_dump,omitempty"`
 	G0, G1, G2    int      `json:"-"`
@@ -321,6 +326,8 @@ func runChild(sc Scenario) (res Result) {
 		holdConns   = make(chan *net.TCPConn, 64)
 		holdRelease = make(chan struct{})
 		holdWG      sync.WaitGroup
+		// control connections of established SOCKS5 UDP associations, as the harness server sees them
+		ctrlEstablished, ctrlClosed atomic.Int64
 	)
 	upstreamAddr := ""
 	switch sc.Upstream {
@@ -358,9 +365,21 @@ func runChild(sc Scenario) (res Result) {
 						return
 					}
 					p := tgtAddr.Port()
-					tc.Write([]byte{5, 0, 0, 1, 127, 0, 0, 1, byte(p >> 8), byte(p)})
-					tc.SetReadDeadline(time.Now().Add(5 * time.Second))
-					tc.Read(b) // until the client closes
+					if _, err := tc.Write([]byte{5, 0, 0, 1, 127, 0, 0, 1, byte(p >> 8), byte(p)}); err != nil {
+						return
+					}
+					// The association is established: from here on the CLIENT SESSION owns the control connection.
+					// Never close it first: session Close wakes the client session's keep-alive goroutine, which closes the
+					// TCP connection.  If the harness closed it, a client session leaked on an init-abort or tear-down path
+					// (goroutine + control connection) would be cleaned up by the harness and stay invisible.
+					ctrlEstablished.Add(1)
+					tc.SetReadDeadline(time.Time{})
+					for {
+						if _, err := tc.Read(b); err != nil {
+							break // closed by the client (or by the harness at the very end of the run)
+						}
+					}
+					ctrlClosed.Add(1)
 				}()
 			}
 		}()
@@ -759,6 +778,23 @@ func runChild(sc Scenario) (res Result) {
 	if res.StopReturned {
 		m.Close()
 		res.GEnd, res.FEnd = settle(res.GBase, res.FBase, 2*time.Second)
+		if sc.Upstream == "socks5-hold" {
+			// resources owned by the upstream client session: the harness SOCKS5 server's view of the control connections
+			// (every established association must have been closed BY THE CLIENT) and the child's goroutine dump
+			patient(5*time.Second, func() bool { return ctrlClosed.Load() >= ctrlEstablished.Load() })
+			res.CtrlEstablished = int(ctrlEstablished.Load())
+			res.CtrlOpen = int(ctrlEstablished.Load() - ctrlClosed.Load())
+			d := stacks()
+			for _, g := range strings.Split(d, "\n\n") {
+				if strings.Contains(g, "Socks5UDPClient).newSession") {
+					res.ClientSessionGoroutines++
+					head, _, _ := strings.Cut(g, "\n")
+					if len(res.ClientSessionDump) < 600 {
+						res.ClientSessionDump += head + " direct.(*Socks5UDPClient).newSession.func1; "
+					}
+				}
+			}
+		}
 		if res.GEnd > res.GBase || res.FEnd > res.FBase {
 			res.LeakDump = trimDump(stacks())
 		}
